@@ -63,7 +63,7 @@ def run_programs(rep, progs, tag, props_for_panic=("C02", "C03")):
             continue
         if m != i:
             rep.disagreements.append({"lane": tag, "case": ic[k], "model": m, "impl": i,
-                                      "program": sast.program(p), "model_case": mc[k]})
+                                      "program": sast.program(p), "model_case": mc[k], "ast": p})
         if i.startswith("ok ") and " :: " in i:
             v, t = i[3:].split(" :: ", 1)
             typed.append((k, v, t))
@@ -110,3 +110,29 @@ def untyped(outs):
     for k, a in zip(idx, ans):
         res[k] = "ok " + a
     return res
+
+
+def shrink_disagreement(d, budget=120):
+    """minimise a disagreeing program (line-level delta debugging on the AST); returns a dict with
+    the shrunk program and both commands, or None"""
+    from . import shrink
+    if "ast" not in d:
+        return None
+    env = {"VERIF_HELPERS": HELPERS}
+
+    def outs(p):
+        mc = "(prog-ty " + " ".join(sast.sx(l) for l in p) + ")"
+        ic = '(run-ty "' + esc(sast.program(p)) + '")'
+        m = norm_model(common.run_cases(common.DRIVER, [mc], env=env)[0])
+        i = norm_impl(common.run_cases(common.HARNESS, [ic])[0])
+        return m, i, mc, ic
+
+    def bad(p):
+        m, i, _, _ = outs(p)
+        return m != i and not m.startswith("!fuel") and not i.startswith(("!died", "!timeout"))
+    try:
+        q = shrink.shrink(d["ast"], bad, budget=budget)
+        m, i, mc, ic = outs(q)
+        return {"program": sast.program(q), "model": m, "impl": i, "model_case": mc, "case": ic}
+    except Exception as e:  # shrinking is best effort
+        return {"error": str(e)}
